@@ -464,7 +464,8 @@ def main():
     old = open(OUT).read() if os.path.exists(OUT) else None
     if old != new:
         open(OUT, "w").write(new)
-    if unaudited:
+    # an unaudited site only concerns C15's tie; other properties' runs are not affected by it
+    if unaudited and (len(sys.argv) < 2 or sys.argv[1] == "C15"):
         raise SystemExit("extract: C15: iteration over a randomly seeded HashMap/HashSet that is not in the audited list "
                          "(tools/propcfg/C15.py AUDIT) - classify it (order-irrelevant / order-relevant) and model it: "
                          + "; ".join(" | ".join(u) for u in unaudited[:4]))
